@@ -203,6 +203,23 @@ def extra_oracles(rng, tier):
                                              % (a, b, (ok1, ok2), same)))
     finally:
         S.time = old_time
+    # anything handed in as a token: refused without an error (a nonce comes straight from the Authorization header)
+    S.time = lambda: 1000.0
+    try:
+        good = get_token("k", "c", timeout=300)
+        for T in (None, 0, 300):
+            for tok in ("", "zz", "é", "\udcff", good + "é", "é" + good[1:], good.upper(), " " + good, good + " ", good[:-1],
+                        "0" * 64, "\x00", "g" * 64, good.encode().decode("latin-1")):
+                n += 1
+                try:
+                    got = check_token(tok, "k", "c", timeout=T)
+                except Exception as err:
+                    out.append(Violation("token-raises", "check_token(%r, T=%s)" % (tok[:20], T), "raised %r" % (err,)))
+                    continue
+                if got and not (T == 300 and tok == good):
+                    out.append(Violation("c16-malformed-accepted", "check_token(%r, T=%s)" % (tok[:20], T), "a token that was never issued verifies"))
+    finally:
+        S.time = old_time
     # timeouts that are not whole seconds: the same window rule (instants on a grid of T/4, all exactly representable)
     from fractions import Fraction as Fr
     clock = [0.0]
